@@ -37,6 +37,9 @@ def profiles(tier):
     P.append(("histories", Profile("hist-structure", spec, False, hs_ops, tag="structure"), {"depth": d}))
     hw_ops = A.hypergraph_weights(U, [(1, 2), (1, 2, 3), (1,)])
     P.append(("histories", Profile("hist-weights", spec, True, hw_ops, tag="weights"), {"depth": d}))
+    # deep churn histories over a tiny alphabet (insert / remove of four records): id reuse and stale tables need 5+ steps
+    P.append(("histories", Profile("hist-churn", spec, False, A.churn([((1, 2), None), ((2, 3), None), ((1, 2, 3), None), ((3,), None)])), {"depth": 8 if tier == "quick" else 10}))
+    P.append(("histories", Profile("hist-churn-weighted", spec, True, A.churn([((1, 2), None), ((2, 3), None), ((1, 2, 3), None), ((3,), None)])), {"depth": 6 if tier == "quick" else 8}))
     if tier == "thorough":
         Us = ("a", "b", "c")
         specs = HypergraphSpec(Us, "zz")
